@@ -425,6 +425,10 @@ def get_model_parser(top_rule, comments_model, **kwargs):
 
                 # Used to keep track of user class instances
                 self._user_class_inst = []
+                # All user class instances created by this parser (also
+                # those whose construction is not finished). Used to drop
+                # their collected attributes if loading fails.
+                self._user_class_created = []
 
                 self._replace_user_attr_methods()
 
@@ -441,7 +445,7 @@ def get_model_parser(top_rule, comments_model, **kwargs):
 
             except:  # noqa
                 # Restore of user classes replaced attr methods
-                self._restore_user_attr_methods()
+                self._discard_user_class_state()
                 raise
 
             finally:
@@ -503,12 +507,28 @@ def get_model_parser(top_rule, comments_model, **kwargs):
                     self._replace_user_attr_methods_for_class(user_class)
                 else:
                     user_class._tx_instrumented += 1
+            self._user_attr_methods_replaced = True
+
+        def _discard_user_class_state(self):
+            """
+            Called if loading fails. Restore attr methods (if this parser
+            replaced them) and drop the attributes collected for the user
+            class instances this parser created.
+            """
+            self._restore_user_attr_methods()
+            for inst in getattr(self, "_user_class_created", []):
+                type(inst)._tx_obj_attrs.pop(id(inst), None)
+            self._user_class_created = []
 
         def _restore_user_attr_methods(self):
             """
             Restore original get/set/del(attr) methods on user
-            classes.
+            classes. Does nothing if this parser hasn't replaced them (or has
+            already restored them).
             """
+            if not getattr(self, "_user_attr_methods_replaced", False):
+                return
+            self._user_attr_methods_replaced = False
             for user_class in self.metamodel.user_classes.values():
                 if hasattr(user_class, "_tx_instrumented"):
                     user_class._tx_instrumented -= 1
@@ -653,6 +673,7 @@ def parse_tree_to_objgraph(
                 # So that nested object get correct reference
                 inst = user_class.__new__(user_class)
                 user_class._tx_obj_attrs[id(inst)] = {}
+                parser._user_class_created.append(inst)
                 is_user = True
 
             else:
@@ -999,6 +1020,7 @@ def parse_tree_to_objgraph(
                 # (remove all of them, not only the model with errors,
                 # since, models with errors may be included in other models)
                 remove_models_from_repositories(models, models)
+                _discard_user_class_state(models)
                 raise
 
         if metamodel.textx_tools_support and type(model) not in PRIMITIVE_PYTHON_TYPES:
@@ -1093,6 +1115,17 @@ def _remove_all_affected_models_in_construction(model):
         filter(lambda x: hasattr(x, "_tx_reference_resolver"), all_affected_models)
     )
     remove_models_from_repositories(all_affected_models, models_to_be_removed)
+    _discard_user_class_state(models_to_be_removed)
+
+
+def _discard_user_class_state(models):
+    """
+    Loading failed: user classes must not stay instrumented and must not
+    keep attributes of the objects of the given (discarded) models.
+    """
+    for model in models:
+        if hasattr(model, "_tx_parser"):
+            model._tx_parser._discard_user_class_state()
 
 
 class ReferenceResolver:
